@@ -27,7 +27,7 @@ inductive Err | none | runningWorker | notRunningWorker | sameConcurrency | jobP
 
 inductive Call where
   | add (q k : Nat) (prio : Int)
-  | addAll (q b : Nat) (ks : List Nat)
+  | addAll (q b : Nat) (ks : List Nat) (prios : List Int)
   | jclose (k : Nat) | jwait (k : Nat) | jstatus (k : Nat) | jresult (k : Nat) | jdrain (k : Nat)
   | gwait (b : Nat) | gpending (b : Nat) | gcollect (b : Nat)
   | purge (q : Nat) | qclose (q : Nat) | qpending (q : Nat)
